@@ -755,7 +755,13 @@ func stages(api, q, vars, op string, world, weirdErr int, fo *frontObs) sexp.Nod
 var expectRefused bool
 
 const frontMaxBytes = 1500
-const frontMaxBytesDeep = 4200
+// the scanner model is quadratic in the length of the text: the deep-value texts that the front tie
+// runs on are bounded at 2200 bytes in the quick tier (lists to 1001 levels, the other kinds to
+// 500 / 333 / 250), 6000 in the thorough tier
+const frontMaxBytesDeep = 2200
+const frontMaxBytesDeepThorough = 6000
+
+var thoroughTier bool
 
 var hostileVS *sexp.Node
 
@@ -806,6 +812,9 @@ func emit(stream, api, q, vars, op string, world, weirdErr int) sexp.Node {
 	limit := frontMaxBytes
 	if strings.HasPrefix(stream, "deep-value") {
 		limit = frontMaxBytesDeep
+		if thoroughTier {
+			limit = frontMaxBytesDeepThorough
+		}
 	}
 	if fo.ok && (api == "execute" || api == "subscribe") && len(q) <= limit {
 		fields = append(fields, sexp.T("front",
@@ -819,6 +828,7 @@ func emit(stream, api, q, vars, op string, world, weirdErr int) sexp.Node {
 
 func main() {
 	hx.Main(func(h *hx.H) {
+		thoroughTier = h.Thorough()
 		apis := []string{"execute", "validate", "subscribe", "serve"}
 		nWeird := len(weirdValues())
 		// 1. seeds through every api
@@ -894,6 +904,13 @@ func main() {
 				}
 			}
 		}
+		// 4c. lexical corners at every kind of position (lexical.go)
+		for _, c := range lexicalCases(h.Thorough()) {
+			c := c
+			h.Case(func(*rng.R) sexp.Node {
+				return emit("lexical-"+c.family, "execute", lexPlace(c.place, c.item), `{}`, "", 0, 0)
+			})
+		}
 		// 5. operation names
 		for _, op := range []string{"", "A", "B", "C", "\x00"} {
 			op := op
@@ -929,7 +946,7 @@ func main() {
 		}
 		// 7. the composed stream: requests inside the common envelope of the stage models, on which
 		// the composed model (Pipe/Compose.v) is run from the bytes and compared
-		nc := 2400
+		nc := 1500
 		if h.Thorough() {
 			nc = 60000
 		}
